@@ -2,6 +2,7 @@ package main
 
 import (
 	"fmt"
+	"strings"
 	"sort"
 
 	. "verif/internal/proto"
@@ -382,6 +383,7 @@ func checkC06(c *Ctx) {
 	{
 		type hp struct{ name, src, want string }
 		def := "如何加一？\n\t\t输入数\n\t\t输出 数 + 1\n"
+		dog := "定义狗：\n\t其名 = “默认”\n"
 		hps := []hp{
 			{"def-in-branch/used-inside", "如果 真：\n\t" + def + "\t输出（加一：1）\n输出 0\n", "num(2)"},
 			{"def-in-branch/used-before-its-line", "如果 真：\n\t令果 = （加一：1）\n\t" + def + "\t输出 果\n输出 0\n", "num(2)"},
@@ -392,6 +394,16 @@ func checkC06(c *Ctx) {
 			{"type-in-branch/gone-after", "如果 真：\n\t定义猫：\n\t\t其名 = “咪”\n\t令物 = （新建猫）\n输出（新建猫）之名\n", "error:42"},
 			{"def-in-handler/used-inside", "令甲 = 1 / 0\n\n拦截异常：\n\t" + def + "\t输出（加一：1）\n", "num(2)"},
 			{"def-in-method-branch/used-inside", "如何外？\n\t如果 真：\n\t\t如何内？\n\t\t\t输出 5\n\t\t输出（内）\n\t输出 0\n输出【（外），（外）】\n", "list[num(5),num(5)]"},
+			// a constructor is a declaration too: written in a method body / branch for a type of an
+			// outer block it must not outlive that block (either it is rejected or it is gone)
+			{"ctor-in-method/gone-after", dog + "如何新建狗？\n\t输入甲\n\t其名 = “外层”\n如何造？\n\t如何新建狗？\n\t\t输入甲\n\t\t其名 = “内层”\n\t输出 1\n令前 = （新建狗：1）\n（造）\n令后 = （新建狗：1）\n输出【前之名，后之名】\n", `list[text("外层"),text("外层")]|error:*`},
+			{"ctor-in-method/type-without-ctor", dog + "如何造？\n\t如何新建狗？\n\t\t其名 = “内层”\n\t输出 1\n（造）\n输出（新建狗）之名\n", `text("默认")|error:*`},
+			{"ctor-in-method/handled-exception", dog + "如何造？\n\t如何新建狗？\n\t\t其名 = “内层”\n\t令甲 = 1 / 0\n\n\t拦截异常：\n\t\t输出 2\n（造）\n输出（新建狗）之名\n", `text("默认")|error:*`},
+			{"ctor-in-branch/gone-after", dog + "如果 真：\n\t如何新建狗？\n\t\t其名 = “内层”\n\t令甲 = 1\n输出（新建狗）之名\n", `text("默认")|error:*`},
+			{"ctor-in-loop/gone-after", dog + "以项遍历【1，2】：\n\t如何新建狗？\n\t\t其名 = “内层”\n\t令甲 = 1\n输出（新建狗）之名\n", `text("默认")|error:*`},
+			{"ctor-with-type-in-branch/works", "如果 真：\n\t定义猫：\n\t\t其名 = “咪”\n\t如何新建猫？\n\t\t输入甲\n\t\t其名 = 甲\n\t输出（新建猫：“花”）之名\n输出 0\n", `text("花")`},
+			{"ctor-with-type-in-method/works", "如何造？\n\t定义猫：\n\t\t其名 = “咪”\n\t如何新建猫？\n\t\t输入甲\n\t\t其名 = 甲\n\t输出（新建猫：“花”）之名\n输出【（造），（造）】\n", `list[text("花"),text("花")]`},
+			{"ctor-with-type-in-body/works", dog + "如何新建狗？\n\t输入甲\n\t其名 = 甲\n输出（新建狗：“旺”）之名\n", `text("旺")`},
 			{"def-in-branch/not-exported", "", ""},
 		}
 		hreqs := []Req{}
@@ -419,7 +431,13 @@ func checkC06(c *Ctx) {
 			} else if resp.Kind == "error" && resp.Err != nil {
 				got = fmt.Sprintf("error:%d", resp.Err.Code)
 			}
-			if got != h.want {
+			okHand := false
+			for _, w := range strings.Split(h.want, "|") {
+				if got == w || (w == "error:*" && resp.Kind == "error") {
+					okHand = true
+				}
+			}
+			if !okHand {
 				c.Violation("hand:"+h.name, fmt.Sprintf("%s: outcome %s %v, expected %s\nprogram:\n%s", h.name, got, resp.Err, h.want, h.src), map[string]interface{}{"req": req})
 			}
 		})
